@@ -194,7 +194,7 @@ func c34HostileVarint(rng *rand.Rand, actual int64, elem int64) c34Var {
 		return c34Var{v: actual - 1}
 	case x < 44:
 		return c34Var{v: 65536 + rng.Int63n(1<<20)/elem}
-	case x < 50:
+	case x < 47:
 		return c34Var{v: (70_000_000 + rng.Int63n(30_000_000)) / elem} // just above 64 MiB once multiplied by the element size
 	case x < 62:
 		return c34Var{v: 1 << 62}
@@ -389,7 +389,8 @@ func TestVerifC34Gen(t *testing.T) {
 			t.Fatalf("harness: handleProduce: %v", err)
 		}
 		if acks == 0 {
-			return len(wire) >= 61
+			r.Count("hostile_batches_sent_with_acks_0_no_verdict", 1)
+			return false
 		}
 		resp := kmsg.NewPtrProduceResponse()
 		resp.SetVersion(7)
@@ -432,14 +433,45 @@ func TestVerifC34Gen(t *testing.T) {
 			if rng.Intn(2) == 0 {
 				acks = 0
 			}
-			if !produce(topic, acks, wire) {
+			if !produce(topic, acks, wire) && acks != 0 {
 				t.Fatalf("harness: broker refused a valid batch")
 			}
 		}
 		collect(topic, "valid/broker")
 	}
+	// (b) fixed minimal hostile batches first: one valid one-record batch {key "k", value "v", one header h=x} with one field changed
+	one := func() *c34Batch {
+		first := int64(1_700_000_000_000)
+		return &c34Batch{first: first, max: first, count: 1, recs: []c34Rec{{klen: c34Var{v: 1}, key: []byte("k"), vlen: c34Var{v: 1}, val: []byte("v"),
+			hcount: c34Var{v: 1}, hdrs: []c34Hdr{{klen: c34Var{v: 1}, k: []byte("h"), vlen: c34Var{v: 1}, v: []byte("x")}}}}}
+	}
+	fixed := []struct {
+		label string
+		mut   func(b *c34Batch)
+	}{
+		{"header_count=-1", func(b *c34Batch) { b.recs[0].hcount = c34Var{v: -1} }},
+		{"header_count=2000000", func(b *c34Batch) { b.recs[0].hcount = c34Var{v: 2_000_000} }},
+		{"record_count=700000", func(b *c34Batch) { b.count = 700_000 }},
+		{"record_count=2147483647", func(b *c34Batch) { b.count = 1<<31 - 1 }},
+		{"record_length=4611686018427387904", func(b *c34Batch) { b.recs[0].length = &c34Var{v: 1 << 62} }},
+		{"record_length=80000000", func(b *c34Batch) { b.recs[0].length = &c34Var{v: 80_000_000} }},
+		{"key_len=4611686018427387904", func(b *c34Batch) { b.recs[0].klen = c34Var{v: 1 << 62} }},
+		{"value_len=80000000", func(b *c34Batch) { b.recs[0].vlen = c34Var{v: 80_000_000} }},
+		{"header_value_len=80000000", func(b *c34Batch) { b.recs[0].hdrs[0].vlen = c34Var{v: 80_000_000} }},
+	}
+	for i, f := range fixed {
+		b := one()
+		f.mut(b)
+		wire, _ := b.encode()
+		topic := fmt.Sprintf("c34f-%d", i)
+		r.Count("hostile_batches_sent", 1)
+		if produce(topic, -1, wire) {
+			r.Count("hostile_batches_acknowledged", 1)
+		}
+		collect(topic, "broker/fixed:"+f.label)
+	}
 	// (b) hostile batches through the broker
-	nHostile := r.N(700, 12000)
+	nHostile := r.N(500, 12000)
 	accepted := 0
 	for i := 0; i < nHostile; i++ {
 		rng := r.Rand(100000 + i)
@@ -489,7 +521,7 @@ func TestVerifC34Gen(t *testing.T) {
 		collect(topic, "broker/"+strings.Join(labels, "+"))
 	}
 	// (a) harness-wrapped byte strings
-	nMut := r.N(800, 15000)
+	nMut := r.N(500, 15000)
 	for i := 0; i < nMut; i++ {
 		rng := r.Rand(200000 + i)
 		var body []byte
@@ -625,6 +657,6 @@ func TestVerifC34Gen(t *testing.T) {
 	}
 	r.Note("hostile_batches_acknowledged_by_broker", fmt.Sprintf("%d", accepted))
 	r.Sample(map[string]any{"segments_container": segW.N, "indexes_container": idxW.N})
-	r.Floor("segment_inputs_broker", 300)
+	r.Floor("segment_inputs_broker", 250)
 	r.Floor("segment_inputs_reaching_batch_parser", 1000)
 }
